@@ -11,7 +11,8 @@ import tempfile
 
 def document():
     tag = lambda t, c: {'text': t, 'category': c}   # noqa: E731
-    pron = lambda t, v=None: {'text': t, **({'variety': v} if v else {})}   # noqa: E731
+    def pron(t, v=None, **kw):
+        return {'text': t, **({'variety': v} if v else {}), **kw}
     ex = lambda t: {'text': t, 'meta': None}   # noqa: E731
     lemma_tags = [tag('VBZ', 'penn'), tag('3sg', 'feat'), tag('VB', 'penn'), tag('Pres', 'feat'), tag('VBZ', 'penn')]
     form_tags = [tag('z', 'c2'), tag('a', 'c1'), tag('m', 'c0'), tag('a', 'c1')]
@@ -20,12 +21,18 @@ def document():
         'entries': [{
             'id': 'ord-w1', 'meta': None,
             'lemma': {'writtenForm': 'walks', 'partOfSpeech': 'v', 'tags': lemma_tags,
-                      'pronunciations': [pron('wɔːks', 'GB'), pron('wɑks', 'US'), pron('aaa'), pron('wɔːks', 'GB')]},
+                      'pronunciations': [pron('wɔːks', 'GB', notation='ipa', phonemic=False, audio='http://a/1.ogg'),
+                                         pron('wɑks', 'US', phonemic=True), pron('aaa', phonemic=False),
+                                         pron('wɔːks', 'GB')]},
             'forms': [{'writtenForm': 'zwalk', 'tags': form_tags, 'pronunciations': [pron('zz'), pron('bb'), pron('mm')]},
                       {'writtenForm': 'awalk', 'tags': [tag('q', 'k'), tag('b', 'k')]},
                       {'writtenForm': 'mwalk'}],
             'senses': [
                 {'id': 'ord-s-z', 'synset': 'ord-ss2', 'meta': None,
+                 # two relations to the same synset that differ only in dc:type
+                 'relations': [{'target': 'ord-ss1', 'relType': 'other', 'meta': {'type': 'zz'}},
+                               {'target': 'ord-ss1', 'relType': 'other', 'meta': {'type': 'aa'}},
+                               {'target': 'ord-ss3', 'relType': 'domain_topic', 'meta': None}],
                  'examples': [ex('zeta example'), ex('alpha example'), ex('mid example'), ex('alpha example')],
                  'counts': [{'value': 9, 'meta': None}, {'value': 1, 'meta': None}, {'value': 5, 'meta': None},
                             {'value': 1, 'meta': None}]},
@@ -39,7 +46,7 @@ def document():
              'examples': [ex('yy'), ex('cc'), ex('pp'), ex('cc')]},
             {'id': 'ord-ss2', 'ili': '', 'partOfSpeech': 'v', 'meta': None,
              'definitions': [{'text': 'second synset', 'meta': None}], 'examples': [ex('2'), ex('1')]},
-            {'id': 'ord-ss3', 'ili': '', 'partOfSpeech': 'v', 'meta': None},
+            {'id': 'ord-ss3', 'ili': '', 'meta': None},                      # partOfSpeech is optional on <Synset>
         ],
     }
     return {'lmf_version': '1.1', 'lexicons': [lex]}
@@ -60,6 +67,12 @@ def check():
         wn.config.data_directory = os.path.join(work, 'data')
         path = os.path.join(work, 'ord.xml')
         lmf.dump(doc, path)
+        # metadata attributes with an empty value (dump() itself never writes them): on the lexicon and on a sense
+        text = open(path, encoding='utf-8').read()
+        assert text.count('<Lexicon id="ord"') == 1 and text.count('<Sense id="ord-s-m"') == 1
+        text = text.replace('<Lexicon id="ord"', '<Lexicon dc:source="" dc:publisher="p" id="ord"')
+        text = text.replace('<Sense id="ord-s-m"', '<Sense dc:description="" id="ord-s-m"')
+        open(path, 'w', encoding='utf-8').write(text)
         wn.add(path, progress_handler=None)
         w = wn.Wordnet('ord:1')
 
@@ -74,13 +87,23 @@ def check():
         for f, d in zip(forms, docforms):
             cmp(f'Form({d["writtenForm"]}).tags()', [(t.tag, t.category) for t in f.tags()],
                 [(t['text'], t['category']) for t in d.get('tags', [])])
-            cmp(f'Form({d["writtenForm"]}).pronunciations()', [(p.value, p.variety) for p in f.pronunciations()],
-                [(p['text'], p.get('variety')) for p in d.get('pronunciations', [])])
+            cmp(f'Form({d["writtenForm"]}).pronunciations()',
+                [(p.value, p.variety, p.notation, p.phonemic, p.audio) for p in f.pronunciations()],
+                [(p['text'], p.get('variety'), p.get('notation'), p.get('phonemic', True), p.get('audio'))
+                 for p in d.get('pronunciations', [])])
         cmp('Word.senses()', [s.id for s in word.senses()], [s['id'] for s in e['senses']])
         for d in e['senses']:
             s = w.sense(d['id'])
             cmp(f'Sense({d["id"]}).examples()', s.examples(), [x['text'] for x in d.get('examples', [])])
             cmp(f'Sense({d["id"]}).counts()', [int(c) for c in s.counts()], [c['value'] for c in d.get('counts', [])])
+        cmp('Lexicon.metadata()', sorted(w.lexicons()[0].metadata().items()), [('publisher', 'p'), ('source', '')])
+        cmp('Sense(ord-s-m).metadata()', sorted(w.sense('ord-s-m').metadata().items()), [('description', '')])
+        sz = w.sense('ord-s-z')
+        cmp('Sense(ord-s-z).get_related_synsets(other)', sorted({x.id for x in sz.get_related_synsets('other')}),
+            ['ord-ss1'])
+        cmp('Sense(ord-s-z).get_related_synsets(domain_topic)', [x.id for x in sz.get_related_synsets('domain_topic')],
+            ['ord-ss3'])
+        cmp('Synset(ord-ss3).pos', [w.synset('ord-ss3').pos], [None])
         for d in lex['synsets']:
             ss = w.synset(d['id'])
             cmp(f'Synset({d["id"]}).examples()', ss.examples(), [x['text'] for x in d.get('examples', [])])
